@@ -133,6 +133,7 @@ pub enum Action {
     Dup(usize),
     Drop(usize),
     Pipe(usize),
+    PipeForce(usize),
     Persist(usize, bool),
     Fsync(usize),
     Apply(usize, usize),
@@ -324,11 +325,22 @@ impl Sim {
             return;
         }
         // Strip numbers from the message for a stable signature.
-        let sig_msg: String = msg
-            .chars()
-            .map(|c| if c.is_ascii_digit() { '#' } else { c })
-            .take(90)
-            .collect();
+        let mut sig_msg = String::new();
+        let mut in_num = false;
+        for c in msg.chars() {
+            if c.is_ascii_digit() {
+                if !in_num {
+                    sig_msg.push('#');
+                }
+                in_num = true;
+            } else {
+                in_num = false;
+                sig_msg.push(if c == '\n' { ' ' } else { c });
+            }
+            if sig_msg.len() >= 90 {
+                break;
+            }
+        }
         self.mon.violation(
             "C20",
             "panic",
@@ -969,6 +981,7 @@ impl Sim {
                 true
             }
             Action::Pipe(v) => self.do_pipe(*v, false),
+            Action::PipeForce(v) => self.do_pipe(*v, true),
             Action::Persist(v, one) => self.do_persist(*v, *one),
             Action::Fsync(v) => {
                 // Background flush. Only at Idle in the synchronous modes (there everything
